@@ -498,8 +498,11 @@ pub fn all() -> Vec<Scenario> {
         }
     }
     // every input cell of every permutation row of two real challenger circuits (+1, nothing else touched)
-    for (nm, f) in [("kb-d4-ext", crate::chsweep::sweep_ext as fn() -> Result<crate::chsweep::Swept, String>), ("kb-d1-base-in-quintic", crate::chsweep::sweep_base)] {
-        match catch_unwind(AssertUnwindSafe(f)) {
+    type SweepFn = fn(usize, &'static str) -> Result<crate::chsweep::Swept, String>;
+    for (nm, first, f) in [("kb-d4-ext", 8usize, crate::chsweep::sweep_ext as SweepFn), ("kb-d4-ext-partial-first-block", 3, crate::chsweep::sweep_ext),
+                           ("kb-d1-base-in-quintic", 8, crate::chsweep::sweep_base), ("kb-d1-base-in-quintic-partial-first-block", 3, crate::chsweep::sweep_base),
+                           ("kb-d1-base-in-quintic-sample-first", 0, crate::chsweep::sweep_base)] {
+        match catch_unwind(AssertUnwindSafe(|| f(first, nm))) {
             Ok(Ok(sw)) => {
                 for class in &sw.classes {
                     let acc = sw.accepted.iter().find(|a| &a.0 == class);
